@@ -74,6 +74,12 @@ def period_part(ctx):
     ops = [{"op": "period", "s": s} for s in strings]
     impl = vlib.probe(ops)
     mod = vlib.model(ops)
+    verdicts = vlib.model([{"op": "c19_judge", "period": s, "obs": i if isinstance(i, dict) else {"panic": "died"}}
+                           for s, i in zip(strings, impl)])
+    for s, i, v in zip(strings, impl, verdicts):
+        if not v.get("holds") and isinstance(i, dict) and "panic" not in i and not i.get("died"):
+            ctx.violation("Spec.C19.periodHolds: parse_duration(%r) = %s is not what the documented grammar gives" % (s, i),
+                          {"op": "period", "s": s, "impl": i})
     for s, i, m in zip(strings, impl, mod):
         cls = "ok" if "ok" in m else "reject"
         ctx.count("period:model:" + cls)
@@ -181,11 +187,12 @@ def config_part(ctx):
         ops = [{"op": "first_request", "path": p, "timeout_ms": TIMEOUT_MS} for _, p, _ in cases]
         # several probe processes in parallel would contend for nothing; one is enough (≈10 ms each)
         impl = vlib.probe(ops, timeout=1800)
-        for (label, path, cfg), res in zip(cases, impl):
-            cls = classify(res)
+        classes = [classify(res) for res in impl]
+        cverdicts = vlib.model([{"op": "c19_judge", "outcome": c} for c in classes]) if classes else []
+        for (label, path, cfg), res, cls, cv in zip(cases, impl, classes, cverdicts):
             ctx.count("config:" + cls)
             ctx.case({"config": label})
-            if cls not in ("starts", "rejected", "starts-after-limiter-sleep"):
+            if not cv.get("holds"):
                 with open(path) as f:
                     text = f.read()
                 ctx.violation("configuration %s: outcome %s (%s)" % (label, cls, str(res)[:200]),
